@@ -25,7 +25,7 @@ RULE = ("one run = one of three arms on four replicas (vlevel 0-3); distinct = d
 PROBES = ["arm_history", "arm_corrupt", "arm_assign", "corrupt_accepted_somewhere", "corrupt_rejected_somewhere",
           "invalid_assignment", "valid_assignment", "surfaced_at_write", "surfaced_at_validate", "repaired",
           "repeated_header_tag", "custom_taglike",
-          "header_add", "header_add_multi", "custom_record_field"]
+          "header_add", "header_add_multi", "custom_record_field", "accessor_chain"]
 
 ASSIGN = {
     # datatype: (valid python values, invalid python values)
@@ -37,7 +37,7 @@ ASSIGN = {
     "J": ([{"a": 1}, [1, "x"], '{"k": 2}'], ["{", 5, "1", "null", "[NaN]", '"abc"']),
     "H": ([{"__t": "bytearray", "v": [1, 2]}, "0AFF"], ["0a", "XYZ", "ABC", {"__t": "bytearray", "v": []}, "0A\n"]),
     "B": ([[1, 2], {"__t": "floatlist", "v": [1.5]}, "C,1,2"],
-          [[1, 2.5], [2 ** 40], "C,300", "c,1,", 7, {"__t": "numarray", "v": []}, {"__t": "floatlist", "v": ["nan"]},
+          [[1, 2.5], [1.5, 2, 3], [True, 2], [2 ** 40], "C,300", "c,1,", 7, {"__t": "numarray", "v": []}, {"__t": "floatlist", "v": ["nan"]},
            {"__t": "boollist", "v": [True, False]}, "f,1e999", {"__t": "floatlist", "v": ["inf", 1.0]}]),
 }
 
@@ -155,6 +155,13 @@ def gen(streams, tier, i):
         pool = [v for v in ASSIGN[dt][0 if valid else 1] if not isinstance(v, (list, dict)) or dt == "J"]
         ops.append({"op": "hdradd", "dtype": dt, "nprev": ar.randint(0, 3), "prev": ASSIGN[dt][0][0],
                     "explicit": ar.random() < 0.5, "value": ar.choice(pool), "valid": valid})
+    for _ in range(ar.randint(0, 1)):
+        # a tag is created, removed through its accessor and given two values of different types in a row: the
+        # first decides the datatype, the second is invalid for it (at every level)
+        first, second = ar.choice([(5, "abc"), ("abc", {"__t": "float", "v": 1.5}), ({"__t": "float", "v": 2.5}, "x y"),
+                                   ([1, 2], "q"), (7, [1, 2])])
+        ops.append({"op": "accessor_chain", "li": ar.randrange(1000), "tag": ar.choice(["qx", "qy"]), "first": first,
+                    "second": second, "connected": ar.random() < 0.6})
     for _ in range(ar.randint(1, 5)):
         dt = ar.choice(sorted(ASSIGN))
         valid = ar.random() < 0.4
@@ -296,6 +303,9 @@ def run_assign(scn, st):
         if op["op"] == "hdradd":
             hdradd(op, st)
             continue
+        if op["op"] == "accessor_chain":
+            accessor_chain(reps, op, version, st)
+            continue
         st.count("op.assign")
         x = pyval(op["value"])
         tag, dt = op["tag"], op["dtype"]
@@ -382,6 +392,43 @@ def run_assign(scn, st):
             if texts[lvl] != texts[0]:
                 raise core.Violation("levels-diverge-text", "after assignment %d the replicas differ (level %d)" % (n, lvl),
                                      level=lvl, op="assign")
+
+
+def accessor_chain(reps, op, version, st):
+    st.count("op.accessor_chain")
+    tag = op["tag"]
+    for lvl, g in enumerate(reps):
+        lines = [l for l in ob.listed_lines(g) if l.record_type not in ("#",) and not l.virtual]
+        if not lines:
+            return
+        line = lines[op["li"] % len(lines)]
+        if not op["connected"]:
+            oo = core.call(gfapy.Line, ob.line_text(line), vlevel=lvl, version=version if line.record_type not in "H" else None)
+            if not oo.ok:
+                return
+            line = oo.value
+        core.call(line.delete, tag)
+        if not core.call(line.set, tag, 1).ok:
+            return
+        core.call(setattr, line, tag, None)
+        a1 = core.call(setattr, line, tag, pyval(op["first"]))
+        if not a1.ok:
+            core.call(line.delete, tag)
+            continue
+        a2 = core.call(setattr, line, tag, pyval(op["second"]))
+        st.count("oracle.surfacing")
+        st.count("probe.accessor_chain")
+        what = "level %d: %s.%s = None, then %r, then %r through the accessor" % (lvl, line.record_type, tag,
+                                                                                 pyval(op["first"]), pyval(op["second"]))
+        if lvl == 3 and a2.ok:
+            raise core.Violation("invalid-not-reported-at-assignment", "%s: the second value was accepted" % what,
+                                 dtype="chain", level=3)
+        if a2.ok:
+            v = core.call(line.validate_field, tag)
+            if v.ok:
+                raise core.Violation("invalid-not-reported-by-validate", "%s: validate_field passes (datatype now %r)" %
+                                     (what, line.get_datatype(tag)), dtype="chain", level=lvl)
+        core.call(line.delete, tag)
 
 
 def hdradd(op, st):
